@@ -206,6 +206,30 @@ pub fn run(ctx: &Ctx) -> Outcome {
     let mut rep = run_sharded(ctx, |w, nw, rep| {
         let ls = LangSet::new();
         let mut rng = Rng::derive(ctx.seed, "C09", w as u64);
+        // bounded exhaustive part: every stream of up to 4 (thorough: 5) tokens over the small alphabet of each language,
+        // judged with the policy model (lower-case, hint-free)
+        let (n_small, cut) = streams::for_each_small_stream(&ls.lex, if ctx.quick() { 4 } else { 5 }, w, nw, &|| ctx.elapsed() > ctx.budget_s * 0.5, &mut |code, toks| {
+            let v = check_stream(&ls, code, toks, true);
+            rep.eval(streams::stream_hash(code, toks) ^ 0xe4, v.numbers > 0);
+            rep.add("numbers_recognised", v.numbers as u64);
+            rep.add("policy_membership_judged", v.judged_policy as u64);
+            rep.add("skipped_ambiguous", v.skipped_ambiguous as u64);
+            rep.add("gaps_soft", v.gap_classes[0] as u64);
+            rep.add("gaps_hard", v.gap_classes[1] as u64);
+            rep.add("gaps_ambiguous", v.gap_classes[2] as u64);
+            if let Some(msg) = v.failure {
+                let clause = msg.split(':').next().unwrap_or("").to_string();
+                rep.violation(
+                    &format!("{}:{}", code, clause),
+                    jobj! {"kind" => "stream", "lang" => code, "model" => true, "tokens" => streams::stream_json(toks)},
+                    format!("[{}] {} | stream: {}", code, msg, streams::show_stream(toks)),
+                );
+            }
+        });
+        rep.add("exhaustive_small_alphabet_streams", n_small);
+        if cut {
+            rep.count("exhaustive_enumeration_cut_by_budget");
+        }
         for i in 0..(n_streams / nw as u64) {
             if i % 128 == 0 && ctx.over_budget() {
                 break;
@@ -247,7 +271,7 @@ pub fn run(ctx: &Ctx) -> Outcome {
     if !ctx.quick() {
         super::legs::fuzz_leg(ctx, &mut rep, 45);
     }
-    let rule = "cases = grammar-noise token streams, each scanned at 9 base thresholds (0,1,3,5,10,25,inf,NaN,-1) plus value and value +/- 0.5 of its first numbers; universal laws on every stream: F(t) subset of F(0) as exact tuples, monotonicity over all ordered threshold pairs, t<=0 or NaN rewrites everything, every non-small number is reported; policy model (lower-case, hint-free streams): a small number is reported iff a neighbour of the same kind is linked through a soft gap; gaps are soft (whitespace, hyphen, letter-free tokens other than a lone period, linking words, the conjunction) / hard (a lone period, a word that is not linking) / ambiguous (the separator word, a conjunction flagged not-a-number that the language does not list as linking: not judged); non-trivial = stream with at least one recognised number";
+    let rule = "cases = every stream of 1..4 (thorough 1..5) tokens over a 16-word alphabet per language (counter exhaustive_small_alphabet_streams) and grammar-noise token streams, each scanned at 9 base thresholds (0,1,3,5,10,25,inf,NaN,-1) plus value and value +/- 0.5 of its first numbers; universal laws on every stream: F(t) subset of F(0) as exact tuples, monotonicity over all ordered threshold pairs, t<=0 or NaN rewrites everything, every non-small number is reported; policy model (lower-case, hint-free streams): a small number is reported iff a neighbour of the same kind is linked through a soft gap; gaps are soft (whitespace, hyphen, letter-free tokens other than a lone period, linking words, the conjunction) / hard (a lone period, a word that is not linking) / ambiguous (the separator word, a conjunction flagged not-a-number that the language does not list as linking: not judged); non-trivial = stream with at least one recognised number";
     finish(ctx, rep, rule, &["'is this a linking word / a separator word' is asked of the running library through the public trait methods", "gaps that contain the decimal-separator word are not judged (DESIGN.md C09); letter-free tokens other than a lone period are transparent, as the property's anchor states"], vec![])
 }
 
